@@ -927,7 +927,7 @@ func (g *kGen) stmt(depth int) *kStmt {
 			if g.r.Intn(10) < 7 {
 				return &kStmt{k: "rng", x: x, e: small(), a: body()}
 			}
-			// the bound is a bare variable (divergence class range-int-bound-variable, F51): declared just before
+			// the bound is a bare variable (the shape of F51, repaired by 231dea3): declared just before
 			// the loop, and only ever assigned small values inside it
 			g.push()
 			bnd, ok := g.declName(isIntName, generalInts)
@@ -997,15 +997,16 @@ func level2(s *kStmt, encl []map[int]bool, found *bool) {
 	}
 }
 
-// redeclTemplate: programs of the divergence class loopvar-redeclared-in-body (F52): the body of a three-clause
-// or range loop declares, at its top level, a variable with the loop variable's name. cfg.go turns that define
-// into a nop; the right-hand side is a literal or a variable (an operator expression there crashes the compiler).
+// redeclTemplate: programs of the shape of F52 (repaired by 1c8103f): the body of a three-clause or range loop
+// declares, at its top level, a variable with the loop variable's name (before the repair cfg.go turned that
+// define into a nop, and an operator expression on the right crashed the compiler).
 func redeclTemplate(r *rand.Rand) *kStmt {
 	i, a := nInt+r.Intn(nLoop), 2
 	iv := &kExpr{k: "var", n: int64(i)}
 	lo := int64(r.Intn(2))
 	hi := lo + 2 + int64(r.Intn(2))
-	rhs := []*kExpr{{k: "lit", n: int64(5 + r.Intn(4))}, {k: "var", n: int64(a)}, iv}[r.Intn(3)]
+	rhs := []*kExpr{{k: "lit", n: int64(5 + r.Intn(4))}, {k: "var", n: int64(a)}, iv,
+		{k: "bin", op: "add", a: iv, b: &kExpr{k: "lit", n: 10}}, {k: "bin", op: "mul", a: iv, b: &kExpr{k: "var", n: int64(a)}}}[r.Intn(5)]
 	body := []*kStmt{{k: "set", d: true, x: i, e: rhs}}
 	if r.Intn(2) == 0 {
 		body = append(body, &kStmt{k: "set", x: i, e: &kExpr{k: "bin", op: "add", a: iv, b: &kExpr{k: "lit", n: int64(1 + r.Intn(3))}}})
@@ -1092,16 +1093,9 @@ func genClos(r *rand.Rand) (string, string, map[string]bool) {
 }
 
 // closClass: the divergence class of a program of this fragment (a decidable predicate of the input);
-// "" = none known.
+// "" = none known. The two classes this stream found — range-int-bound-variable (F51) and
+// loopvar-redeclared-in-body (F52) — are repaired (231dea3, 1c8103f); their shapes stay in the stream, unlabelled.
 func closClass(term string, feat map[string]bool) string {
-	if feat["clos:loopvar-redeclared-in-body"] {
-		// `for i := … { i := … }`: the define is turned into a nop (F52)
-		return "loopvar-redeclared-in-body"
-	}
-	if rngVarBound.MatchString(term) {
-		// `for i := range n` with n a bare variable: yaegi's hidden max slot holds n's own cell (F51)
-		return "range-int-bound-variable"
-	}
 	return ""
 }
 
@@ -1166,9 +1160,8 @@ func closStream(run *common.Run) {
 			run.Count("clos:"+terms[i], nontrivial)
 			run.Hit("clos:end:" + gs[i].End)
 			run.Hit("clos:mech:" + ans["mech"])
-			run.Hit("clos:in-theorem-domain:" + ans["dom"])
-			if (ans["dom"] == "true") == (rngVarBound.MatchString(terms[i]) || feats[i]["clos:loopvar-redeclared-in-body"]) {
-				run.Errorf("the driver's domain predicate and the harness's class label disagree on %s", terms[i])
+			if rngVarBound.MatchString(terms[i]) != feats[i]["clos:range-bound-variable"] {
+				run.Errorf("range-bound-variable bucket and term disagree on %s", terms[i])
 			}
 			for f := range feats[i] {
 				run.Hit(f)
